@@ -5,12 +5,12 @@ set -u
 . "$(dirname "$0")/env.sh"
 NAME="$1"; shift
 cd "$VERIF_ROOT"
-if ! git -C /repo diff --quiet; then echo "/repo is dirty; refusing"; exit 2; fi
-git -C /repo apply "$VERIF_ROOT/seeded/$NAME/patch.diff" || { echo "TRY $NAME patch-does-not-apply-to-/repo"; exit 1; }
+if ! git -C "$VERIF_REPO" diff --quiet; then echo "$VERIF_REPO is dirty; refusing"; exit 2; fi
+git -C "$VERIF_REPO" apply "$VERIF_ROOT/seeded/$NAME/patch.diff" || { echo "TRY $NAME patch-does-not-apply-to-/repo"; exit 1; }
 for C in "$@"; do
   out=$(scripts/run.sh "$C" "${TIER:-quick}" 2>work/try.$NAME.$C.err); rc=$?
   nv=$(echo "$out" | grep -c '^VIOLATION')
   sig=$(grep '^--- ' work/try.$NAME.$C.err | head -3 | tr '\n' ' ')
   echo "TRY $NAME check=$C exit=$rc violations=$nv $sig"
 done
-git -C /repo checkout -- .
+git -C "$VERIF_REPO" checkout -- .
